@@ -146,11 +146,18 @@ impl Visitor<Diagnostic> for LibraryRenderer {
         &mut self,
         node: &CharacterStringLiteral,
     ) -> Result<Self::Value, Diagnostic> {
-        // TODO this may not be right
-        let mut val = String::from("'");
+        // The literal keeps the characters as written. A single quoted literal
+        // cannot contain a single quote so then use the double quoted form.
+        let quote = if node.value.contains(&'\'') {
+            '"'
+        } else {
+            '\''
+        };
+
+        let mut val = String::from(quote);
         let s: String = node.value.iter().collect();
         val.push_str(s.as_str());
-        val.push('\'');
+        val.push(quote);
         self.write_ws(&val);
         Ok(())
     }
